@@ -68,12 +68,33 @@ def oracle_cases(tier, rng):
                 for (H, W) in (hw if tier == 'thorough' else [hw[i] for i in rng.choice(len(hw), 3, replace=False)]):
                     if J <= 3:
                         yield dict(kind='2d', wave=wn, mode=mode, J=J, H=int(H), W=int(W), nb=1, C=2, axes=[(int(H), L), (int(W), L)], seed=int(rng.integers(1 << 30)))
+    # separate column / row wavelets (4-tuple constructor)
+    mixed = [('db2', 'db4'), ('db4', 'sym4'), ('bior2.4', 'db3'), ('haar', 'bior1.3'), ('coif1', 'rbio2.2')]
+    for (wc, wr) in (mixed if tier == 'thorough' else mixed[:4]):
+        Lc, Lr = pywt.Wavelet(wc).dec_len, pywt.Wavelet(wr).dec_len
+        for mode in MODES5:
+            for J in (1, 2):
+                for (H, W) in [(2 * Lc + 1, 2 * Lr + 2), (4 * Lc, 4 * Lr + 1), (16, 23)]:
+                    yield dict(kind='2d', wave=wc, wave_row=wr, mode=mode, J=J, H=H, W=W, nb=1, C=2, axes=[(H, Lc), (W, Lr)], seed=int(rng.integers(1 << 30)))
 
 
 def strat_key(cfg):
     L = cfg['axes'][0][1]
     n = cfg['axes'][0][0]
-    return '%s/%s/J%d/%s/%s' % (cfg['kind'], cfg['mode'], cfg['J'], 'short' if n < L else 'long', 'odd' if n % 2 else 'even')
+    return '%s%s/%s/J%d/%s/%s' % (cfg['kind'], '-mixed' if cfg.get('wave_row') else '', cfg['mode'], cfg['J'], 'short' if n < L else 'long', 'odd' if n % 2 else 'even')
+
+
+def wave_arg(cfg, which):
+    """constructor argument of the 2-D modules for cfg: a name, or the 4-tuple (col lo, col hi, row lo, row hi)"""
+    if not cfg.get('wave_row'):
+        return cfg['wave']
+    wc, wr = pywt.Wavelet(cfg['wave']), pywt.Wavelet(cfg['wave_row'])
+    if which == 'dec':
+        return (wc.dec_lo, wc.dec_hi, wr.dec_lo, wr.dec_hi)
+    return (wc.rec_lo, wc.rec_hi, wr.rec_lo, wr.rec_hi)
+
+def pywt_arg(cfg):
+    return (cfg['wave'], cfg['wave_row']) if cfg.get('wave_row') else cfg['wave']
 
 
 def oracle_run(cfg):
@@ -90,8 +111,8 @@ def oracle_run(cfg):
             want = [ref[0]] + list(ref[1:])
         else:
             X = r.standard_normal((cfg['nb'], cfg['C'], cfg['H'], cfg['W']))
-            yl, yh = DWTForward(J=J, wave=wn, mode=mode)(torch.tensor(X))
-            ref = pywt.wavedec2(X, wn, mode=mode, level=J, axes=(-2, -1))
+            yl, yh = DWTForward(J=J, wave=wave_arg(cfg, 'dec'), mode=mode)(torch.tensor(X))
+            ref = pywt.wavedec2(X, pywt_arg(cfg), mode=mode, level=J, axes=(-2, -1))
             got = [yl.numpy()] + [h.numpy() for h in yh[::-1]]
             want = [ref[0]] + [np.stack(t, axis=2) for t in ref[1:]]
     except (RuntimeError, ValueError) as e:
